@@ -405,12 +405,13 @@ std::optional<Typification::Substitutes> TypeAuditor::CheckFuncArguments(Cursor 
   Typification::Substitutes substitutes{};
   for (Index child = 1; child < iter.ChildrenCount(); ++child) {
     const auto childType = ChildType(iter, child);
-    if (!childType.has_value() || !std::holds_alternative<Typification>(childType.value())) {
+    if (!childType.has_value()) {
       return std::nullopt;
     }
     Typification argType = args->at(static_cast<size_t>(child) - 1).type;
     MangleRadicals(funcName, argType);
-    if (!env.CompareTemplated(substitutes, argType, std::get<Typification>(childType.value()))) {
+    if (!std::holds_alternative<Typification>(childType.value())
+      || !env.CompareTemplated(substitutes, argType, std::get<Typification>(childType.value()))) {
       OnError(
         SemanticEID::invalidArgumentType,
         iter(child).pos.start, argType,
